@@ -5,7 +5,9 @@ import _std
 from vlib import lgen, schemas, variants
 
 META = {}
-SKIP = {'named_args_reordered', 'rec_iter_forced_depth2'}     # known findings of C01 / C03; not re-reported here
+SKIP = {'named_args_reordered', 'rec_iter_forced_depth2',       # known findings of C01 / C03; not re-reported here
+        'rec_functor_over_deep_mutual', 'rec_functor_over_deep_mutual_original'}   # carriers of the C03 / C04 finding: a
+# renaming or rotation of the predicates only moves the defect between the original and its functor copy
 
 
 def variant_schemas(tier, seed):
